@@ -110,6 +110,7 @@ type Conts struct {
 	ML    map[string][]int32
 	MM    map[string]map[string]int32
 	MF    map[string]float64
+	MFK   map[float64]string
 	ML64  map[int64]int64
 	MU64  map[uint64]uint64
 	MI8   map[int8]uint16
@@ -295,3 +296,20 @@ type Uni2 struct {
 	Élan int32
 	Ñu   string
 }
+
+// Unexp has a field that is not exported; EmbHidden embeds a type that is not exported.
+type Unexp struct {
+	A int32
+	b int32
+	C string
+}
+
+func NewUnexp(a, b int32) Unexp { return Unexp{A: a, b: b, C: "c"} }
+
+type hidden struct{ X int32 }
+type EmbHidden struct {
+	hidden
+	Y int32
+}
+
+func NewEmbHidden(x int32) EmbHidden { return EmbHidden{hidden{x}, 1} }
